@@ -33,7 +33,7 @@ REQUIRED_THEOREMS = [
     # save / resume steps (from_json(to_json())) anywhere in the history of a network
     "Acn.C13.restore_history_eq", "Acn.C13.restore_iface_eq", "Acn.C13.advertised_accepted_restored",
 ]
-BUDGET = {"quick": 1500, "thorough": 40000, "search": 8000}
+BUDGET = {"quick": 1500, "thorough": 32000, "search": 8000}
 TRUSTED = ["numpy.isclose / Python float comparison semantics (modelled as |a-b| <= atol)",
            "IEEE-754 rounding at the open edge of the tolerance (oracle abstains within 1e-9 of the edge; "
            "the dyadic exact-edge stream tests the edge itself without rounding)",
